@@ -160,6 +160,9 @@ func (p *c07) NumCases(tier string, seed int64) int {
 func (p *c07) inputs(tier string, seed int64, idx int) []string {
 	if idx == 0 {
 		ins := append([]string{}, c07Hostile...)
+		// (a million open blocks: 5 MB that end inside the innermost block, and the same closed again)
+		huge := strings.Repeat("x:a {", 1000000)
+		ins = append(ins, huge, huge+strings.Repeat("}", 1000000))
 		deep := strings.Repeat("x:a {", 10000)
 		ins = append(ins, deep, deep+strings.Repeat("}", 10000), deep+strings.Repeat("}", 9999), deep+strings.Repeat("}", 10001),
 			strings.Repeat("a ", 5000)+";", "a \""+strings.Repeat("x\n   ", 5000)+"\";", strings.Repeat("/* c */", 3000), strings.Repeat("a \"b\" + ", 2000)+"\"c\";")
@@ -362,7 +365,12 @@ func (p *c07) Run(tier string, seed int64, idx int) core.CaseResult {
 		if idx >= 1 && idx <= a {
 			res.Ev("prefix_inputs", 1)
 		}
-		c07CheckOne(fmt.Sprintf("vf%d_%d.yang", idx, i), s, &res)
+		name := fmt.Sprintf("vf%d_%d.yang", idx, i)
+		if (idx+i)%4 == 0 {
+			// the name of the input is arbitrary text as well
+			name = fmt.Sprintf("vf%d %%20_%%s%%d_%d.yang", idx, i)
+		}
+		c07CheckOne(name, s, &res)
 	}
 	if idx%211 == 0 && len(ins) > 0 {
 		res.Sample = map[string]interface{}{"batch": idx, "inputs": len(ins), "one": core.Trunc(ins[len(ins)/2], 200)}
